@@ -60,6 +60,9 @@ const SOURCES: &[Source] = &[
     // one rule per modifier option (the option value shares one slot of the format with the others;
     // which one it is, is decided by mask bits that a fault can move)
     Source { name: "modifiers", rules: &["||p.com^$removeparam=utm", "*$removeparam=ref", "||c.com^$csp=d1", "@@||c.com^$csp=d1", "||r.com^$redirect-rule=a", "||r.com/x$redirect=a"], debug: false, optimize: true, tags: &[], perm: 0 },
+    // initiator lists of two and three entries (stored as sorted hash lists: a fault can unsort them),
+    // queried from the listed domains and from sub-domains of theirs
+    Source { name: "domain-lists", rules: &["ads$domain=x.com|z.com", "||t.co.uk^$domain=~x.com|~y.com|~z.com", "adv$script,domain=x.com|y.com|z.com"], debug: false, optimize: false, tags: &[], perm: 0 },
 ];
 
 fn resources() -> Vec<adblock::resources::Resource> {
@@ -425,6 +428,15 @@ fn run_battery(e: &Engine, net: &[String], cos: &[String]) -> Battery {
             }
         }
     }
+    // the first requests once more from initiators that rules of the buffers list (and sub-domains
+    // of them: the initiator is probed with the hashes of all its parent domains)
+    for u in net.iter().take(10) {
+        for src in ["https://x.com/", "https://z.com/p", "https://s1.x.com/", "https://s2.x.com/", "https://s3.x.com/", "https://s4.x.com/", "https://s10.x.com/page", "https://a.b.z.com/", "https://s1.y.com/", "https://s7.z.com/"] {
+            if let Ok(r) = adblock::request::Request::new(u, src, "script") {
+                out.push(format!("{:?}", Verdict::of(&e.check_network_request(&r))));
+            }
+        }
+    }
     for u in cos {
         let r = e.url_cosmetic_resources(u);
         let mut hs: Vec<_> = r.hide_selectors.into_iter().collect();
@@ -655,7 +667,7 @@ fn record(buffer: usize, f: &Src, res: ShardResult, l: &mut Local) {
 
 fn check(ctx: &Ctx) -> i32 {
     let buffers: Vec<usize> = match ctx.tier {
-        Tier::Quick => vec![0, 1, 2, 5, 12, 13, 14],
+        Tier::Quick => vec![0, 1, 2, 5, 12, 13, 14, 15],
         Tier::Thorough => (0..SOURCES.len()).collect(),
     };
     let pair_buffers: Vec<usize> = if ctx.tier == Tier::Thorough { vec![5, 6, 0] } else { vec![] };
